@@ -72,8 +72,9 @@ def main():
   import concurrent.futures  # pylint: disable=import-outside-toplevel
   with concurrent.futures.ThreadPoolExecutor(max_workers=jobs) as ex:
     results = [r for rs in ex.map(run_group, groups.values()) for r in rs]
-  with open(os.path.join(VERIF, "build", "seeded-results.json"), "w") as fh:
-    json.dump(results, fh, indent=1)
+  for name in ("seeded-results.json", "seeded-results-%d.json" % int(time.time())):
+    with open(os.path.join(VERIF, "build", name), "w") as fh:
+      json.dump(results, fh, indent=1)
   missed = [r["id"] for r in results if not r.get("detected")]
   print("seeded: %d run, %d detected, missed: %s" % (len(results), len(results) - len(missed), missed))
   return 0
